@@ -794,7 +794,7 @@ impl Engine for C18 {
     fn default_runs(&self, tier: Tier) -> u64 {
         match tier {
             Tier::Quick => 1_500_000,
-            Tier::Thorough => 60_000_000,
+            Tier::Thorough => 30_000_000,
         }
     }
     fn info(&self) -> EngineInfo {
@@ -821,14 +821,17 @@ impl Engine for C18 {
         }
     }
 
-    fn generate(&self, rng: &mut Rng, _tier: Tier) -> Case {
+    fn generate(&self, rng: &mut Rng, tier: Tier) -> Case {
+        let deep = tier == Tier::Thorough && rng.chance(1, 5);
         let faults = !rng.chance(1, 4);
-        let keyspace = *rng.pick(&[2u64, 4, 12, 12, 1_000_000]);
+        let keyspace = if deep { *rng.pick(&[12u64, 64, 64, 1_000_000]) } else { *rng.pick(&[2u64, 4, 12, 12, 1_000_000]) };
         let len = match rng.below(10) {
             0..=2 => rng.range(1, 4),
             3..=7 => rng.range(3, 16),
             _ => rng.range(10, 40),
         } as usize;
+        // thorough tier: one run in five is a long history on a larger tree
+        let len = if deep { rng.range(40, 160) as usize } else { len };
         // swarm: per-run operation weights
         let mut w = [0u64; 8];
         for x in w.iter_mut() {
@@ -850,7 +853,7 @@ impl Engine for C18 {
         let mut attempts = 0u32;
         while ops.len() < len {
             attempts += 1;
-            if attempts > 400 {
+            if attempts > 400 + 4 * len as u32 {
                 break;
             }
             let mut r = g.rng.below(total);
@@ -887,6 +890,7 @@ impl Engine for C18 {
                         1 => 1,
                         2 => 2,
                         3 => 3,
+                        _ if deep => g.rng.range(2, 20),
                         _ => g.rng.range(2, 6),
                     };
                     let mut items: Vec<(i64, i64, u64)> = vec![];
